@@ -26,6 +26,8 @@ Line protocol of the C08 model (fast fields / columnar).
   stack <inputs>                     -> rows of read(mergeStacked)
   colrange <lo> <hi> <s> <e> <rows>  -> Column::get_docids_for_value_range on the written column
   inrange <lo> <hi> <rows>           -> docsInRange
+  dictshuffle <used> <order> <dicts> <inputs> -> `merged;rows` of merge_bytes_or_str_column: the merged
+                                        dictionary and the rows of remapped ordinals (inputs: rows of old ordinals)
   dictmerge <used> <dicts>           -> `merged;map/map/..` of merge_dict_and_compute_term_ord_mapping: dicts
                                         separated by `/` (terms as ranks), used per segment `*` (every
                                         ordinal) or the ordinals surviving rows use; map: new ordinal per old
@@ -213,6 +215,13 @@ def handle : List String → String
         showOptList ((List.range (ds.getD s []).length).map (fun o => remapOrd m s o)))
       showNatList m.merged ++ ";" ++ "/".intercalate maps
     | _, _ => "bad-op"
+  | ["dictshuffle", used, order, dicts, inputs] =>
+    match parseUsed used, parseOrder order, (dicts.splitOn "/").mapM natList, parseInputs inputs with
+    | some u, some o, some ds, some ords =>
+      let ins : List DictInput := (ds.zip ords).map (fun p => ⟨p.1, p.2⟩)
+      let m := mergeDictColumnAs (shuffledCard o ords) (usedFn u) o ins
+      showNatList m.1 ++ ";" ++ showRows (read m.2.1 m.2.2)
+    | _, _, _, _ => "bad-op"
   | ["inrange", lo, hi, rows] =>
     match lo.toNat?, hi.toNat?, parseRows rows with
     | some lo, some hi, some rows => showNatList (docsInRange id rows lo hi)
